@@ -105,6 +105,8 @@ def verify_contract(ex: Exec, c: api.Contract):
         vals = dict(params)
         vals["old"] = old
         vals["result"] = ret
+        if "value" in c.methods:
+            ex.oblige("post", eq(ret, ex.spec_eval(c, "value", vals)), finfo.node.lineno, label="post.value")
         for name in c.ensures_names():
             ex.oblige("post", truthy(ex.spec_eval(c, name, vals)), finfo.node.lineno, label=f"post.{name}")
         diffs = []
@@ -160,13 +162,16 @@ def _solver(timeout_ms):
 
 
 def discharge(ob: Obligation, timeout_ms=10000, use_cvc5=True):
-    """unsat(pc ∧ ¬goal) => discharged ; sat (validated) => refuted ; else unknown."""
+    """unsat(pc ∧ ¬goal) => discharged ; sat (validated) => refuted ; else unknown.
+    Back ends in order: z3 5.1 (Python API, short first attempt), then on `unknown` the SMT-LIB dump goes to
+    /usr/bin/z3 4.8.12 and to cvc5 1.0.3."""
     t0 = time.time()
     g = ob.goal
     if z3.is_true(g):
         ob.verdict, ob.solver, ob.ms = "discharged", "simplifier", 0.0
         return ob
-    s = _solver(timeout_ms)
+    first = min(timeout_ms, 3000)
+    s = _solver(first)
     for c in ob.pc:
         s.add(c)
     s.add(z3.Not(g))
@@ -185,16 +190,23 @@ def discharge(ob: Obligation, timeout_ms=10000, use_cvc5=True):
             ob.note += " [z3 model failed validation]"
     else:
         ob.verdict = "unknown"
-        ob.note += f" [z3: {s.reason_unknown()}]"
     if ob.verdict == "unknown" and use_cvc5:
-        v = _cvc5(s, timeout_ms)
-        if v == "unsat":
-            ob.verdict = "discharged"
-            ob.solver = "cvc5-1.0.3"
-        elif v == "sat":
-            ob.verdict = "refuted"
-            ob.solver = "cvc5-1.0.3"
-            ob.note += " [refuted by cvc5; no z3 model]"
+        try:
+            smt = s.to_smt2()
+        except Exception:
+            smt = None
+        if smt is not None:
+            for name, fn in (("z3-4.8.12", _z3_old), ("cvc5-1.0.3", _cvc5)):
+                v = fn(smt, timeout_ms)
+                if v == "unsat":
+                    ob.verdict, ob.solver = "discharged", name
+                    break
+                if v == "sat":
+                    ob.verdict, ob.solver = "refuted", name
+                    ob.note += f" [refuted by {name}; no model extracted]"
+                    break
+    if ob.verdict == "unknown":
+        ob.note += f" [z3: {s.reason_unknown()}]"
     ob.ms = (time.time() - t0) * 1000
     return ob
 
@@ -213,24 +225,28 @@ def _validate_model(m, ob):
         return False
 
 
-def _cvc5(solver, timeout_ms):
-    try:
-        smt = solver.to_smt2()
-    except Exception:
-        return "unknown"
-    smt = "(set-logic ALL)\n" + smt
+def _run_cli(cmd, text, timeout_ms):
     with tempfile.NamedTemporaryFile("w", suffix=".smt2", delete=False) as fh:
-        fh.write(smt)
+        fh.write(text)
         path = fh.name
     try:
-        p = subprocess.run(["/usr/bin/cvc5", "--strings-exp", f"--tlimit={timeout_ms}", path],
-                           capture_output=True, text=True, timeout=timeout_ms / 1000 + 5)
+        p = subprocess.run(cmd + [path], capture_output=True, text=True, timeout=timeout_ms / 1000 + 5)
         out = p.stdout.strip().splitlines()
         return out[0] if out and out[0] in ("sat", "unsat") else "unknown"
     except Exception:
         return "unknown"
     finally:
         os.unlink(path)
+
+
+def _z3_old(smt, timeout_ms):
+    return _run_cli(["/usr/bin/z3", f"-T:{max(1, timeout_ms // 1000)}"], smt, timeout_ms)
+
+
+def _cvc5(smt, timeout_ms):
+    import re
+    smt = re.sub(r"\(_ ([^ ()]+) 0\)", r"\1", smt)  # z3 5.x prints recursive-function symbols as (_ f 0)
+    return _run_cli(["/usr/bin/cvc5", "--strings-exp", f"--tlimit={timeout_ms}"], "(set-logic ALL)\n" + smt, timeout_ms)
 
 
 def cover_check(ob: Obligation, timeout_ms=3000):
